@@ -17,7 +17,7 @@ CLAIMED["C01"] = ("Unbounded proof of the per-step legs of 'reads reflect the ex
   "tombstones kept unless nothing lies below; isEmpty/Stats speak about the whole tree of child stacks." + BOUNDED,
   "The whole-history statement is the composition of these steps and is NOT machine-checked as one theorem. Trusted: mergeInto's content (only its call-site preconditions and the shape "
   "of the result are proved; the bounded stand-in exercises it), sort.Sort. snapshot()'s lock-taking path (merger) and the child-stack part of appendChildStacks are assumed (see "
-  "callee_contracts_relied_on). ensureSorted is verified against a trusted ticket contract of RequestSort (every requested level has completed sorting, also one another goroutine is sorting); its callers treat it as a no-op because their contracts admit only stacks without pending sort tickets (DeferredSort batches excluded by ExecuteBatch's precondition). Fixed findings S5, S26.", "13/C01")
+  "callee_contracts_relied_on). The heap iterator's set-up (one source per non-empty level), its order (iterator.Less) and the cursor mirror preserved by Next are proved (see C09); ensureSorted is verified against a trusted ticket contract of RequestSort (every requested level has completed sorting, also one another goroutine is sorting); its callers treat it as a no-op because their contracts admit only stacks without pending sort tickets (DeferredSort batches excluded by ExecuteBatch's precondition). Fixed findings S5, S26.", "13/C01")
 CLAIMED["C02"] = ("Unbounded proof of the mechanisms that keep a snapshot frozen: buildStackDirtyTop (every ExecuteBatch) builds a FRESH stack with a fresh segment array and carries the "
   "nested child stacks over; ExecuteBatch drops the cached snapshot in the same critical section; collection.snapshot copies the section contents into a fresh stack and changes no section; "
   "ChildCollectionSnapshot and Store.snapshot add exactly one count; Footer.DecRef releases locations and child footers only at count zero; Footer.Get returns a private copy unless NoCopyValue; path by path (return-site clauses) Store.persist hands out only counted footers, gives the round's footer back when writing it fails, releases it only after its segments were loaded and ends with exactly two counts; SegmentLocs.AddRef (now verified) and revertToSnapshot add a count on every mapping they share; mergerNotifyPersister counts the lower level it re-points the base section at.",
@@ -31,15 +31,15 @@ CLAIMED["C03"] = ("Unbounded proof at lock granularity (guarded fields are havoc
   "consequence argued in DESIGN.md, not a machine-checked theorem. DeferredSort: ensureSorted's waiting is proved against the trusted ticket contract of RequestSort (seeds C03/3, C01/r4-1, C09/r4-2); readyDeferredSort/doSort of nested child batches stay outside (seeds C03/r2-2, C09/r4-3).", "13/C03")
 CLAIMED["C04"] = ("Unbounded proof of the layout and load legs: page arithmetic (exact), buildNewFooter carries every old location plus one per persisted segment and every live child footer, "
   "compaction (mergeSegStacks/spliceFooter/writeSegments) keeps the incarnations and children, loadBasicSegment views exactly the byte ranges a location names (non-nil buf), isEmpty says "
-  "'nothing to persist' only for an empty tree, the merger never overwrites a base that is being persisted, restoreCollection keeps the incarnation counter above every restored child.",
-  "Not under contract: persistBasicSegment/persistHeader (goroutine protocol), ReadFooter/JSON round trip (trusted), the prefix statement for an early Close. "
+  "'nothing to persist' only for an empty tree, the merger never overwrites a base that is being persisted, restoreCollection keeps the incarnation counter above every restored child; persistBasicSegment returns page-aligned, non-overlapping sections at or after the requested position with the segment's totals; openStore tries the data files newest first.",
+  "Not under contract: the byte counts persistBasicSegment's writer goroutines report over their channel, persistHeader, ReadFooter/JSON round trip (trusted), the prefix statement for an early Close. "
   "Fixed S5, S27 (reopen failed when a superseded file vanished during cleanup; witness only).", "13/C04")
 CLAIMED["C05"] = ("Unbounded proof of the parts of crash safety a contract on moss can carry: (1) ScanFooter, for EVERY file content (reads return arbitrary bytes), never panics or allocates a "
   "negative size, ends with a footer or ErrNoValidFooter unless a file operation failed, and the footer it returns records the position it was found at; (2) persistFooter never writes a "
   "footer while earlier writes are unsynced and succeeds only with everything synced (unless NoSync); (3) append-only: footers and compaction sections are placed at or beyond the known "
   "file size; (4) a compaction configured with CompactionSync/CompactionSyncAfterBytes succeeds only with everything synced; a failing writeSegments schedules no file for removal. All blocks of ScanFooter are proved reachable (vacuity covers).",
   "The crash model (which images a crash can leave, Sync durability, directory ordering) is assumed; 'LAST complete footer' and openStore's fallback to an older file (S3, unrepaired) are not "
-  "under contract. encoding/json sets exported fields only (trusted). Fixed S1, S2.", "13/C05")
+  "under contract (only that the files are tried newest first: a loop measure). encoding/json sets exported fields only (trusted). Fixed S1, S2.", "13/C05")
 CLAIMED["C06"] = ("Unbounded proof of error propagation and non-publication for every sequence of file-operation results (each File call returns a nondeterministic result; a short write is a "
   "failure): persistFooter/persistFooterUnsynced report any failed or short write or sync; the writer goroutine of bufferedSectionWriter hands a failure back; Store.persist, compact and "
   "compactMaybe leave s.footer untouched whenever they return an error; a failed round never schedules a pre-existing (live) file for removal and a failed full compaction schedules the file "
@@ -58,7 +58,7 @@ CLAIMED["C08"] = ("Unbounded proof for point reads and Current: get/getMerged fo
   "level). Reopen not covered.", "13/C08")
 CLAIMED["C09"] = ("Unbounded proof for the single-segment path: findStartKeyInclusivePos is the lower bound for any index window; cursors; iteratorSingle.Next/CurrentEx/Current/SeekTo incl. the "
   "naiveSeekTo loop (order, range, deletions skipped unless asked for, termination); StartIterator degrades to the single-segment iterator only when exactly one source had entries." + BOUNDED,
-  "The general heap iterator (Next/SeekTo/startIterator) is covered ONLY by the bounded stand-in - not a proof. The key-index lookup (C14) and ensureSorted (deferred sort waits for every requested level) are part of this check. Fixed S23 (found by the verifier), S26 (found by the bounded stand-in).", "13/C09")
+  "Of the general heap iterator three legs are now proved (session 3): startIterator adds exactly one cursor per level that has an entry in the range (count invariant over a recursive spec function - no level is passed over, whatever its first entry is); iterator.Less orders by key and, for equal keys, newer level first; iterator.Next preserves 'every cursor mirrors the entry under its segment cursor and is not exhausted' (container/heap trusted to permute the cursors; that startIterator ESTABLISHES this is not proved, so it is an assumption at Next's call sites). Order and completeness of the enumeration (what Next/SeekTo yield) remain covered ONLY by the bounded stand-in - not a proof. The key-index lookup (C14) and ensureSorted (deferred sort waits for every requested level) are part of this check. Fixed S23 (found by the verifier), S26 (found by the bounded stand-in).", "13/C09")
 CLAIMED["C10"] = ("Unbounded proof that every point-read path is the same function of the state: segment.Get, segmentStack.get/getMerged/Get equal the reference read; Collection.Get is proved "
   "against the sections its own critical section saw; Footer.Get copies unless NoCopyValue." + BOUNDED,
   "Known finding S7/S22 (collection.get :: ensures#agree, witness test): Collection.Get disagrees with Snapshot.Get across sections; ensures#chain pins today's behaviour. Iteration agreement "
@@ -82,7 +82,7 @@ CLAIMED["C14"] = ("Unbounded proof, for every segment, key and index density: th
   "uninterpreted with lemmas.", "13/C14")
 CLAIMED["C15"] = ("Unbounded proof of the reference accounting primitives: FileRef/mmapRef/Footer/segmentStack/SnapshotWrapper AddRef/DecRef/segmentLocs change exactly one count by one; at zero "
   "the next level is released exactly once; counts above zero keep file, mapping and locations; Store.snapshot and ChildCollectionSnapshot add exactly one count; failed compaction rounds "
-  "schedule exactly the file they started for removal; per return site: Store.persist (counted hand-outs, footer given back on a failed write, two counts on success), compact's error paths (the count on the output file is given back), snapshotPrevious (no file count kept when nothing is returned), revertToSnapshot (fresh, singly counted child footers; a count on every shared mapping).",
+  "schedule exactly the file they started for removal; per return site: Store.persist (counted hand-outs, footer given back on a failed write, two counts on success), compact's error paths (the count on the output file is given back), snapshotPrevious (no file count kept when nothing is returned), revertToSnapshot (fresh, singly counted child footers; a count on every shared mapping); Store.Close releases the store's count on its footer exactly when the last handle goes.",
   "SegmentLocs.DecRef and Footer.loadSegments trusted; the success path of compact and mergerMain's error paths are not under contract (seed C15/r4-1). iterator.SeekTo releases nothing (ghost count "
   "of Close calls). Fixed S12, S17, S24 (witness only), S29 (a stack releases its child stacks).", "13/C15")
 CLAIMED["C16"] = ("Unbounded proof of the safety half: lock invariant 'at most MaxPreMergerBatches segments in top' at every release of collection.m; after Close, NewBatch/Snapshot/Get/"
@@ -139,7 +139,7 @@ m = {
                                 "obligations discharged by a portfolio of z3 5.1.0, z3 4.8.12 and cvc5 1.0"}],
  "checks": checks,
  "not_applicable": [{"property_id": p, "reason": NA_REASONS.get(p, DEFAULT_NA)} for p in props if p not in CLAIMED],
- "notes": "See DESIGN.md Part II (sections 12-19) for the framework as built. Known findings: /verif/known_findings.json (witness tests in /verif/witness). Must-fail corpora: /verif/mutants (own, 75/75 detected) and /verif/seeded (140 changes by blind agents in four rounds; 57 detected at first pass, 130 by the final checks; DESIGN.md section 17). Bounded stand-in (labelled bounded): /verif/bounded. ./verif selftest runs everything.",
+ "notes": "See DESIGN.md Part II (sections 12-19) for the framework as built. Known findings: /verif/known_findings.json (witness tests in /verif/witness). Must-fail corpora: /verif/mutants (own, 76 patches: 72 detected at the end of session 2, 4 written and detected in session 3) and /verif/seeded (140 changes by blind agents in four rounds; 57 detected at first pass, 130 by the final checks; DESIGN.md section 17). Bounded stand-in (labelled bounded): /verif/bounded. ./verif selftest runs everything.",
 }
 json.dump(m, open("/verif/MANIFEST.json", "w"), indent=1)
 print("claimed:", sorted(CLAIMED))
